@@ -63,6 +63,9 @@ impl Rng {
     }
 }
 
+/// Set when this process closed standard input so that descriptor number 0 is in play.
+pub static DESCRIPTOR_0_FREE: std::sync::atomic::AtomicBool = std::sync::atomic::AtomicBool::new(false);
+
 // ---------------------------------------------------------------- hashing
 
 pub fn fnv64(data: &[u8]) -> u64 {
@@ -494,6 +497,14 @@ impl Report {
     }
     pub fn violation(&mut self, sig: &str, detail: String, case: J) {
         self.violations_total += 1;
+        // the process-wide condition the case ran under belongs to the case (replay restores it)
+        let case = match case {
+            J::Obj(mut kv) if DESCRIPTOR_0_FREE.load(std::sync::atomic::Ordering::Relaxed) => {
+                kv.push(("descriptor_0_free".to_string(), J::Bool(true)));
+                J::Obj(kv)
+            }
+            other => other,
+        };
         // keep at most a few per signature so that one defect does not hide others
         let same = self.violations.iter().filter(|v| v.sig == sig).count();
         if same < 3 && self.violations.len() < MAX_VIOLATIONS {
